@@ -264,10 +264,10 @@ PROPS = {
  ),
  'C15': dict(
     modules=['SlacProps.C15', 'SlacProps.C15Float'], builds=['default', 'zero'],
-    streams=[dict(name='call:length,at,copy,insert,find,count,contains,replace,remove,reverse,unique,all,any,split,split_csv,trim,trim_left,trim_right,lowercase,uppercase,same_text', gen='call:length,at,copy,insert,find,count,contains,replace,remove,reverse,unique,all,any,split,split_csv,trim,trim_left,trim_right,lowercase,uppercase,same_text', build=b, n=n(250, 10000), oracle='none', laws=['no_crash']) for b in ('default', 'zero')] +
+    streams=[dict(name='call:length,at,copy,insert,find,count,contains,replace,remove,reverse,unique,all,any,split,split_csv,trim,trim_left,trim_right,lowercase,uppercase,same_text', gen='call:length,at,copy,insert,find,count,contains,replace,remove,reverse,unique,all,any,split,split_csv,trim,trim_left,trim_right,lowercase,uppercase,same_text', build=b, n=n(250, 10000), oracle='model', laws=['no_crash']) for b in ('default', 'zero')] +
             [dict(name='poslaw', build=b, n=n(30000, 1000000), model=False, oracle='none', laws=['ok']) for b in ('default', 'zero')] +
             # two look-alike calls of ONE builtin inside one expression (arguments only loosely equal: 1 / true / '1', 0 / -0), through compile + execute + optimize
-            [dict(name='pairs', gen='pairs:length,at,copy,insert,find,count,contains,replace,remove,reverse,unique,all,any,split,split_csv,trim,trim_left,trim_right,lowercase,uppercase,same_text,max,min,sort,str', n=n(150, 5000), view='script_exec', oracle='none')],
+            [dict(name='pairs', gen='pairs:length,at,copy,insert,find,count,contains,replace,remove,reverse,unique,all,any,split,split_csv,trim,trim_left,trim_right,lowercase,uppercase,same_text,max,min,sort,str', n=n(150, 5000), view='script_exec', oracle='model')],
     rule='call: the 21 collection/string builtins x generated argument lists in both index-base builds: strings from ASCII / multi-byte / combining / astral / empty pools, heterogeneous and nested arrays, needles that are substrings, empty, overlapping (aa in aaa); '
          'positions and counts at first-1, first, last, last+1, 0, fractional, huge, NaN; answers compared with the sequence model. poslaw: at-enumeration, copy(s, find(s,x), length(x)) = x, failed find = first-1, array laws — evaluated on the builtins themselves',
     trusted=[FLOAT_TB, 'LawfulIdx Float is PROVED (SlacProofs/F64Idx.lean): the position theorems hold for binary64 without hypotheses (SlacProps/C15Float.lean)',
@@ -279,15 +279,15 @@ PROPS = {
         dict(name='tmrange', n=n(0, 1), view='tmrange', oracle='none', laws=['tmrange'], case_timeout=600.0),
         # neighbouring instants (last millisecond of a day, midnight of the next, ...) decoded back to back, days before and after 1970; law on the crate alone
         dict(name='tmpairs', n=n(40, 2000), model=False, oracle='none', laws=['tmrange'], case_timeout=120.0),
-        dict(name='tzeast', gen='call:' + TIME_FNS, n=n(300, 6000), oracle='none', laws=['no_crash'], tz='CET-1CEST,M3.5.0,M10.5.0/3', tz_invariant=True),
-        dict(name='tzwest', gen='call:' + TIME_FNS, n=n(300, 6000), oracle='none', laws=['no_crash'], tz='EST5EDT,M3.2.0,M11.1.0', tz_invariant=True),
-        dict(name='tmfmt', gen='py:timegen.py fmt', n=n(6000, 150000), oracle='none', laws=['no_crash']),
-        dict(name='tmparse', gen='py:timegen.py parse', n=n(6000, 150000), oracle='none', laws=['no_crash']),
-        dict(name='tmtz', gen='py:timegen.py tz', n=n(3000, 60000), oracle='none', laws=['no_crash']),
-        dict(name='tmrfc3339', gen='py:timegen.py rfc3339', n=n(6000, 150000), oracle='none', laws=['no_crash']),
-        dict(name='tmrfc2822', gen='py:timegen.py rfc2822', n=n(6000, 150000), oracle='none', laws=['no_crash']),
-        dict(name='tmhand', gen='py:timegen.py hand', n=n(0, 0), oracle='none', laws=['no_crash']),
-        dict(name='call:date,time,date_to_string,time_to_string,string_to_date,string_to_time,string_to_datetime,day_of_week,encode_date,encode_time,inc_month,is_leap_year,year,month,day,hour,minute,second,millisecond', gen='call:date,time,date_to_string,time_to_string,string_to_date,string_to_time,string_to_datetime,day_of_week,encode_date,encode_time,inc_month,is_leap_year,year,month,day,hour,minute,second,millisecond', n=n(400, 20000), oracle='none', laws=['no_crash']),
+        dict(name='tzeast', gen='call:' + TIME_FNS, n=n(300, 6000), oracle='model', laws=['no_crash'], tz='CET-1CEST,M3.5.0,M10.5.0/3', tz_invariant=True),
+        dict(name='tzwest', gen='call:' + TIME_FNS, n=n(300, 6000), oracle='model', laws=['no_crash'], tz='EST5EDT,M3.2.0,M11.1.0', tz_invariant=True),
+        dict(name='tmfmt', gen='py:timegen.py fmt', n=n(6000, 150000), oracle='model', laws=['no_crash']),
+        dict(name='tmparse', gen='py:timegen.py parse', n=n(6000, 150000), oracle='model', laws=['no_crash']),
+        dict(name='tmtz', gen='py:timegen.py tz', n=n(3000, 60000), oracle='model', laws=['no_crash']),
+        dict(name='tmrfc3339', gen='py:timegen.py rfc3339', n=n(6000, 150000), oracle='model', laws=['no_crash']),
+        dict(name='tmrfc2822', gen='py:timegen.py rfc2822', n=n(6000, 150000), oracle='model', laws=['no_crash']),
+        dict(name='tmhand', gen='py:timegen.py hand', n=n(0, 0), oracle='model', laws=['no_crash']),
+        dict(name='call:date,time,date_to_string,time_to_string,string_to_date,string_to_time,string_to_datetime,day_of_week,encode_date,encode_time,inc_month,is_leap_year,year,month,day,hour,minute,second,millisecond', gen='call:date,time,date_to_string,time_to_string,string_to_date,string_to_time,string_to_datetime,day_of_week,encode_date,encode_time,inc_month,is_leap_year,year,month,day,hour,minute,second,millisecond', n=n(400, 20000), oracle='model', laws=['no_crash']),
         dict(name='num', n=n(30000, 1000000), oracle='none'),
     ],
     rule='tmrange: whole ranges evaluated inside one request, compared by violation count + digest of all encoded numbers: quick = 45 ranges of 2000 dates (incl. year 1, year 9999, 1970, leap day 2000), 44 ranges of 5000 ms of day (incl. midnight, end of day, hour and noon boundaries), 20x2000 date x time combinations through both construction routes and inc_month with increments -24000..24000; '
@@ -298,7 +298,7 @@ PROPS = {
  'C17': dict(
     modules=['SlacProps.C17', 'SlacProps.C17Debug'], builds=['default', 'debug'],
     streams=[
-        dict(name='call:str,float,int,bool,chr,ord,int_to_hex,even,odd,abs,round,trunc,frac,sqrt,exp,ln,sin,cos,arc_tan,pow', gen='call:str,float,int,bool,chr,ord,int_to_hex,even,odd,abs,round,trunc,frac,sqrt,exp,ln,sin,cos,arc_tan,pow', n=n(400, 20000), oracle='none', laws=['no_crash']),
+        dict(name='call:str,float,int,bool,chr,ord,int_to_hex,even,odd,abs,round,trunc,frac,sqrt,exp,ln,sin,cos,arc_tan,pow', gen='call:str,float,int,bool,chr,ord,int_to_hex,even,odd,abs,round,trunc,frac,sqrt,exp,ln,sin,cos,arc_tan,pow', n=n(400, 20000), oracle='model', laws=['no_crash']),
         dict(name='num', n=n(60000, 2000000), oracle='none'),
         dict(name='mathlaw', n=n(20000, 1000000), model=False, oracle='none', laws=['ok']),
         # the same laws in an UNOPTIMISED build, where `powf`, `sin`, ... are the C library's functions exactly as called (no compile-time rewriting)
